@@ -373,7 +373,7 @@ class Check:
         if len(pool) > limit:
             pool = self.rng.sample(pool, limit)
         # keep vm_compute cheap: skip very large cases
-        pool = [(c, r) for c, r in pool if len(enc_case(c)) < 4000 and len(r) < 8000]
+        pool = [(c, r) for c, r in pool if len(enc_case(c)) < 30000 and len(r) < 30000]
         if not pool:
             return
         path = os.path.join(BUILD, "kern_%s.v" % self.pid)
